@@ -21,3 +21,15 @@ package fhirpath
 //@   ensures (err != nil) == (cerr != nil || tvC(c) == TV_ERR)
 //@   ensures err == nil ==> res == (tvC(c) == TV_T)
 //@   assigns nothing
+
+// C01: Compile returns either an expression or an error, never both and never neither; the
+// expression it returns is well-formed in the sense of the visitor contracts
+// (internal/parser/verif_contracts.go): every node satisfies the precondition of its Evaluate
+// contract. (The function table keeps an implementation for every entry whatever the options
+// did: options are opaque function values, so that one call-site precondition is reported as
+// not covered.)
+//@ func Compile(expr, options) (res, err)
+//@   requires forall j int :: 0 <= j && j < len(options) ==> options[j] != nil
+//@   ensures (res != nil) != (err != nil)
+//@   ensures err == nil ==> res.expression != nil && (wfExprP(res.expression) || istype(res.expression, *expr.IdentityExpression))
+//@   assigns *
